@@ -348,6 +348,11 @@ func (w *walker) expr(e ast.Expr, st state) {
 		} else {
 			w.expr(x.Fun, st)
 		}
+		if id, ok := x.Fun.(*ast.Ident); ok && id.Name == "delete" && len(x.Args) == 2 {
+			w.lvalue(x.Args[0], st) // delete(m.field, k) writes the map
+			w.expr(x.Args[1], st)
+			return
+		}
 		for _, a := range x.Args {
 			w.expr(a, st)
 		}
@@ -383,7 +388,7 @@ func (w *walker) expr(e ast.Expr, st state) {
 
 func (w *walker) inline(callee *ast.FuncDecl, st state) {
 	key := callee.Name.Name
-	if w.depth >= 4 || w.stack[key] {
+	if w.depth >= 10 || w.stack[key] {
 		w.note("call of " + key + " not inlined (depth/recursion)")
 		return
 	}
@@ -680,6 +685,94 @@ func dedupStrings(xs []string) []string {
 		}
 	}
 	return out
+}
+
+// wide: every method of every mutex-carrying struct of a package, all accesses to the struct's other fields
+func wide(repo, rel, prefix string, irregular *[]string) (rows []row, types []string, selfCalls []row, foreignCalls []string) {
+	p := load(filepath.Join(repo, rel), nil)
+	for t, si := range p.structs {
+		if len(si.mutexes) > 0 {
+			types = append(types, prefix+"."+t)
+		}
+	}
+	sort.Strings(types)
+	var all []row
+	for _, pt := range types {
+		t := strings.TrimPrefix(pt, prefix+".")
+		names := []string{}
+		for n := range p.methods[t] {
+			names = append(names, n)
+		}
+		sort.Strings(names)
+		for _, n := range names {
+			fd := p.methods[t][n]
+			if fd.Body == nil {
+				continue
+			}
+			_, rn := recvType(fd)
+			if rn == "" || rn == "_" {
+				continue
+			}
+			var irr []string
+			w := &walker{p: p, typ: t, root: n, recv: rn, stack: map[string]bool{n: true}, rows: &all, irregular: &irr}
+			w.block(fd.Body.List, state{held: map[string]bool{}})
+			for _, m := range irr {
+				*irregular = append(*irregular, prefix+"."+m)
+			}
+		}
+	}
+	for _, r := range dedup(all) {
+		if r.kind == "selfcall" {
+			r.typ = prefix + "." + r.typ
+			selfCalls = append(selfCalls, r)
+			continue
+		}
+		if p.structs[r.typ].mutexes[r.field] {
+			continue
+		}
+		r.typ = prefix + "." + r.typ
+		rows = append(rows, r)
+	}
+	// calls of unexported methods of these structs from outside the struct's own methods
+	owner := map[string]string{}
+	for _, pt := range types {
+		t := strings.TrimPrefix(pt, prefix+".")
+		for n := range p.methods[t] {
+			if n[0] >= 'a' && n[0] <= 'z' {
+				owner[n] = t
+			}
+		}
+	}
+	for _, f := range p.files {
+		fname := filepath.Base(p.fset.Position(f.Pos()).Filename)
+		for _, d := range f.Decls {
+			fd, ok := d.(*ast.FuncDecl)
+			if !ok || fd.Body == nil {
+				continue
+			}
+			rt, rn := recvType(fd)
+			ast.Inspect(fd.Body, func(n ast.Node) bool {
+				c, ok := n.(*ast.CallExpr)
+				if !ok {
+					return true
+				}
+				s, ok := c.Fun.(*ast.SelectorExpr)
+				if !ok {
+					return true
+				}
+				o, isU := owner[s.Sel.Name]
+				if !isU {
+					return true
+				}
+				if id, ok := s.X.(*ast.Ident); ok && id.Name == rn && (rt == o || p.methods[rt][s.Sel.Name] != nil) {
+					return true
+				}
+				foreignCalls = append(foreignCalls, fmt.Sprintf("%s.%s called in %s:%s as %s", prefix, o+"."+s.Sel.Name, fname, fd.Name.Name, exprString(p.fset, s)))
+				return true
+			})
+		}
+	}
+	return rows, types, selfCalls, foreignCalls
 }
 
 func main() {
@@ -1043,6 +1136,17 @@ func main() {
 		}
 	}
 
+	// 3. the wide table: ingest, ingest/compact, search
+	var wideRows, wideSelf []row
+	var wideTypes, wideForeign []string
+	for _, pk := range [][2]string{{"ingest", "ingest"}, {"ingest/compact", "compact"}, {"search", "search"}} {
+		rs, ts, sc, fc := wide(*repo, pk[0], pk[1], &irregular)
+		wideRows = append(wideRows, rs...)
+		wideTypes = append(wideTypes, ts...)
+		wideSelf = append(wideSelf, sc...)
+		wideForeign = append(wideForeign, fc...)
+	}
+
 	var sb strings.Builder
 	sb.WriteString("import B6.Model.Locksets\n")
 	sb.WriteString("/-! GENERATED by /verif/tools/locksets from the current source of the b6 module — do not edit.\n")
@@ -1057,6 +1161,10 @@ func main() {
 	fmt.Fprintf(&sb, "def foreignCalls : List String := %s\n\n", leanStrings(dedupStrings(foreignCalls)))
 	fmt.Fprintf(&sb, "def irregular : List String := %s\n\n", leanStrings(dedupStrings(irregular)))
 	fmt.Fprintf(&sb, "def mutexStructs : List String := %s\n\n", leanStrings(mutexTypes))
+	fmt.Fprintf(&sb, "def wideStructs : List String := %s\n\n", leanStrings(wideTypes))
+	fmt.Fprintf(&sb, "def wideTable : List Access := %s\n\n", leanRows(wideRows))
+	fmt.Fprintf(&sb, "def wideSelfCalls : List Access := %s\n\n", leanRows(wideSelf))
+	fmt.Fprintf(&sb, "def wideForeignCalls : List String := %s\n\n", leanStrings(dedupStrings(wideForeign)))
 	fmt.Fprintf(&sb, "def closureAccesses : List Access := %s\n\n", leanRows(dedup(closureRows)))
 	fmt.Fprintf(&sb, "def finishStageFilters : List String := %s\n\n", leanStrings(stageFilters))
 	fmt.Fprintf(&sb, "def unjoinedMainAccesses : List String := %s\n\n", leanStrings(dedupStrings(unjoined)))
